@@ -11,6 +11,7 @@ import (
 	"hash/fnv"
 	"os"
 	"path/filepath"
+	"runtime"
 	"sort"
 	"strconv"
 	"sync"
@@ -291,6 +292,7 @@ type ReplayFile struct {
 	Message  string          `json:"message"`
 	Seed     int64           `json:"seed"`
 	Tier     string          `json:"tier"`
+	Arch     string          `json:"arch,omitempty"` // GOARCH of the process that found it (the driver replays 386 findings with the 32-bit build)
 	Case     json.RawMessage `json:"case"`
 }
 
@@ -325,7 +327,7 @@ func writeReplays() {
 		if err != nil {
 			raw, _ = json.Marshal(fmt.Sprintf("%#v", p.c))
 		}
-		rf := ReplayFile{Property: out.Property, Check: check, Message: p.msg, Seed: Seed(), Tier: Tier(), Case: raw}
+		rf := ReplayFile{Property: out.Property, Check: check, Message: p.msg, Seed: Seed(), Tier: Tier(), Arch: runtime.GOARCH, Case: raw}
 		b, _ := json.MarshalIndent(rf, "", " ")
 		dir := filepath.Join(Root(), "replays", out.Property)
 		os.MkdirAll(dir, 0o755)
